@@ -50,6 +50,17 @@ def run(rep, tier, seed, pa):
         rep.case(sample={"sizes": I.sizes if I else None, "dissim": case["spec"], "backend": res["mode"],
                          "alignment": res.get("tuples"), "partition": f["valid"]},
                  nontrivial_key=(repr(case["units"]), case["spec"], res["mode"]) if nontriv else None)
+    # the SAME continuum and dissimilarity objects aligned, edited in place (a unit moved / an annotator declared), and aligned again: the second
+    # result must be a partition of the continuum as it is now (nothing computed for the first alignment may be reused past an edit)
+    pairs = [(c, ac.edited_case(rng, c)) for c in cases[:48 if tier == "quick" else 480]]
+    pairs = [(c, a) for c, a in pairs if a is not None and sum(1 for us in a["units"] if us) >= 1]
+    for k, (c, a) in enumerate(pairs):
+        a["first_soft"] = (k % 3 == 0)
+    rres = ac.realign_many(pa, [(c, a, "cbc" if k % 2 == 0 else "glpk-noimport", a["first_soft"], False) for k, (c, a) in enumerate(pairs)])
+    ac.judge_many(rep, [(a, r) for (c, a), r in zip(pairs, rres)], part=True, want_optimal=False, prefix="re-aligned:")
+    for (c, a), r in zip(pairs, rres):
+        rep.count("re-aligned_after=" + a["edit"][0])
+        rep.case(nontrivial_key=(repr(a["units"]), a["spec"], "re-aligned") if r["error"] is None else None)
     # build_A entrywise against the model (fn 7)
     lines, metas = [], []
     for case in cases[:60 if tier == "quick" else 400]:
@@ -93,10 +104,8 @@ def run(rep, tier, seed, pa):
 
 def replay(rep, data, pa):
     ac.install_backend_hooks()
-    case = {"units": [[tuple(u) for u in us] for us in data["units"]], "spec": tuple(data["dissim"]), "pattern": "replay", "unlabelled": False}
-    mode = data.get("mode") or "cbc"
-    res = ac.align_case(pa, case, mode)
-    res["mode"] = mode
+    case, res = ac.replay_align(pa, data, soft=False)
+    mode = res["mode"]
     ac.judge_many(rep, [(case, res)], part=True, want_optimal=False)
     for key, path, what in rep.violations:
         print("  ", what)
